@@ -2,7 +2,7 @@
 (* (R)/(V) for X03: every replayed case of the real livesim2 server is compared with the transcription
    (LiveTimelineImplOps, re-evaluated here from the scenario header) AND judged by the oracle operators of
    C01/C02/C04/C05 (LiveTimelineOps / LiveMpdOps).  Events:
-     hdr  {N, dur, vod0, TS, loopMS, tsbd, ato, snr, ast, asset, src}     ground truth of the generated VoD layout
+     hdr  {N, dur, vod0, TS, loopMS, tsbd, ato, snr, ast, fix, asset, src}     ground truth of the generated VoD layout
                                                                            (assetgen) + the URL configuration
      seg  {by, mode, q, now, hasp, p, o}   one media segment request at ?nowMS=now (absolute ms):
           by = "nr": number q ($Number$ / SegmentTimeline-$Number$ URL), by = "tm": time q (SegmentTimeline-$Time$ URL)
@@ -21,7 +21,7 @@ Clause(name, ok, detail) == ClauseAt(l, name, ok, detail)
 e == Trace[l]
 H == Trace[h]
 C  == [N |-> H.N, dur |-> H.dur, vod0 |-> H.vod0, TS |-> H.TS, loopMS |-> H.loopMS,
-       tsbd |-> H.tsbd, ato |-> H.ato, snr |-> H.snr, ast |-> H.ast]
+       tsbd |-> H.tsbd, ato |-> H.ato, snr |-> H.snr, ast |-> H.ast, fix |-> H.fix]
 SC == [N |-> H.N, dur |-> H.dur, vod0 |-> H.vod0, TS |-> H.TS, loopMS |-> H.loopMS,
        tsbd |-> H.tsbd, ato |-> H.ato, snr |-> H.snr]
 NowP(t) == TNorm(P(SC), 0, (t - H.ast * 1000) * H.TS)       \* instant relative to AST, pair over P in u
